@@ -345,6 +345,7 @@ pub fn judge(dir: &Path, c: &Case, obs: &mut Obs) -> Judge {
     obs.class_if(ex.unhonourable.is_some(), "unhonourable-value");
     obs.class_if(c.opts.iter().any(|(n, _)| n.chars().any(|ch| ch.is_ascii_uppercase()) && ROpt::from_ascii_ci(n.as_bytes()).is_some()), "mixed-case-name");
     obs.class_if(c.opts.iter().any(|(n, _)| ROpt::from_ascii_ci(n.as_bytes()).is_none()), "unknown-option-interleaved");
+    obs.class_if(c.opts.iter().filter(|(n, _)| ROpt::from_ascii_ci(n.as_bytes()).is_none()).count() >= 8, "eight-or-more-unknown-options");
     let boundary = ex.recognised.iter().any(|(o, v)| match o {
         ROpt::Blksize => [7u64, 8, 9, 511, 512, 513, 65463, 65464, 65465].contains(v),
         ROpt::Windowsize => [0u64, 1, 2, 65534, 65535, 65536].contains(v),
@@ -422,7 +423,11 @@ fn value_for(o: ROpt) -> BoxedStrategy<u64> {
 pub fn strategy() -> BoxedStrategy<Case> {
     // subset and order of the four options
     let subset = proptest::collection::vec(any::<bool>(), 4);
-    (any::<bool>(), any::<bool>(), subset, any::<u64>(), proptest::collection::vec(any::<u16>(), 4), (0usize..40, 0usize..64), proptest::collection::vec((0usize..5, prop_oneof![Just("multicast"), Just("x"), Just("blksize2"), Just("utimeout")], "[a-z0-9]{0,6}"), 0..3), prop_oneof![9 => Just(false), 1 => Just(true)])
+    (any::<bool>(), any::<bool>(), subset, any::<u64>(), proptest::collection::vec(any::<u16>(), 4), (0usize..40, 0usize..64), prop_oneof![
+            8 => proptest::collection::vec((0usize..5, prop_oneof![Just("multicast"), Just("x"), Just("blksize2"), Just("utimeout")], "[a-z0-9]{0,6}"), 0..3),
+            // a long run of vendor options around the recognised ones (the request stays far below 512 bytes)
+            2 => proptest::collection::vec((0usize..5, prop_oneof![Just("multicast"), Just("x"), Just("blksize2"), Just("utimeout")], "[a-z0-9]{0,6}"), 6..16),
+        ], prop_oneof![9 => Just(false), 1 => Just(true)])
         .prop_flat_map(|(single, write, subset, seed, order, (blocks, rem), unknown, timing)| {
             let chosen: Vec<ROpt> = ROpt::ALL.iter().zip(subset.iter()).filter(|(_, b)| **b).map(|(o, _)| *o).collect();
             let strategies: Vec<BoxedStrategy<(String, u64)>> = chosen.iter().map(|o| (recognised_name(*o), value_for(*o)).boxed()).collect();
